@@ -118,7 +118,7 @@ From KV Require Import Model.RangeCodec Proofs.RangeHeaderProofs.
    range and consumes exactly the header.  The coder itself (interval arithmetic) is not proved. *)
 Theorem C12_range_header_roundtrip : forall wbuf rbuf sched lr alpha fr hops fr0 rest,
   8 <= lr <= 15 -> StronglySorted N.lt alpha -> alpha <> [] -> table_ok lr alpha fr -> length fr0 = 256%nat ->
-  header_ops lr alpha fr = Some hops -> Forall aop_ok (map conv hops) ->
+  header_ops lr alpha fr = Some hops ->
   40 <= wbuf -> wbuf mod 8 = 0 -> 0 < rbuf -> rbuf mod 8 = 0 -> Forall aop_ok rest ->
   exists s1 s2 s', run_aops (new_obs wbuf) (map conv hops ++ rest) = (s1, false) /\ close healthy s1 = (s2, false) /\
     decode_header (new_ibs rbuf (mkSrc (o_out s2) sched None 0)) fr0 = (s', HFreqs alpha fr lr) /\
@@ -133,3 +133,20 @@ Example C12_range_instance :
   | None => False
   end.
 Proof. vm_compute. repeat split; reflexivity. Qed.
+
+(* ... and every chunk gets such a table: the table is NormalizeFrequencies (C16) of the chunk's histogram, so for EVERY
+   non-empty chunk of bytes what RangeEncoder writes in front of it is decoded by RangeDecoder to exactly the table the
+   encoder codes with (C16's theorem composed with the header theorem) *)
+From KV Require Import Model.Normalize Proofs.RangeChunkProofs.
+Theorem C12_range_chunk_header_roundtrip : forall (wbuf rbuf : N) sched (buf fr0 : list N) rest,
+  buf <> [] -> bytes_ok buf -> length fr0 = 256%nat ->
+  (40 <= wbuf)%N -> (wbuf mod 8 = 0)%N -> (0 < rbuf)%N -> (rbuf mod 8 = 0)%N -> Forall aop_ok rest ->
+  let lr := lower_lr 8 LOG_RANGE (N.of_nat (length buf)) in
+  exists frz al hops s1 s2 s',
+    normalize (histogram buf) (Z.of_N (N.of_nat (length buf))) (2 ^ Z.of_N lr)%Z = Some (frz, al) /\
+    header_ops lr (alpha_of al) (tab_of frz) = Some hops /\
+    run_aops (new_obs wbuf) (map conv hops ++ rest) = (s1, false) /\ close healthy s1 = (s2, false) /\
+    decode_header (new_ibs rbuf (mkSrc (o_out s2) sched None 0%N)) fr0 = (s', HFreqs (alpha_of al) (tab_of frz) lr) /\
+    run_arops s' (arops_of rest) = avals_of rest.
+Proof. exact range_chunk_header_roundtrip. Qed.
+Print Assumptions C12_range_chunk_header_roundtrip.
